@@ -1996,6 +1996,10 @@ class PyCdlib:
                     break
                 block += piece
             left -= len(block)
+            if not block:
+                # Nothing more to read (the entry claims more sectors than
+                # there is data); zeros would not change the sum.
+                break
             block = block.ljust(2048, b'\x00')
             i = 0
             if curr_sector == 0:
